@@ -2,7 +2,20 @@
 oracle: exact rational set semantics (fractions.Fraction) vs commonroad.common.util
 corr:   Model/Interval.v evaluated by vm_compute on the same cases (Corr/C16.v)"""
 import math
-from fractions import Fraction as F
+from fractions import Fraction as _Fraction
+
+
+def F(x, den=None):
+    """exact rational of a Python / numpy number (numpy integers are converted first: Fraction arithmetic on
+    numpy.int64 overflows silently or raises)"""
+    if den is not None:
+        return _Fraction(x, den)
+    if isinstance(x, _Fraction):
+        return x
+    if hasattr(x, "item") and not isinstance(x, (int, float)):
+        x = x.item()
+    return _Fraction(x)
+
 
 import numpy as np
 
